@@ -73,6 +73,9 @@ pub struct Profile {
     pub sib_wakes: bool,
     /// probability of polling the combinator again after its final result
     pub p_post: u32,
+    /// probability of a type-dimension variant (children or values without
+    /// drop glue) for a flat top-level combinator
+    pub p_variant: u32,
 }
 
 pub const ALL_FAMILIES: &[(Family, u32)] = &[
@@ -109,6 +112,7 @@ impl Profile {
             allow_zero: true,
             sib_wakes: true,
             p_post: 0,
+            p_variant: 26,
         }
     }
     pub fn only(mut self, fams: &[Family]) -> Profile {
@@ -228,13 +232,14 @@ pub fn gen_comb(c: &mut Cur, p: &Profile, fam: Family, depth: usize, nests_left:
                 family: fam,
                 container: Container::Ext,
                 children: vec![inner, deadline],
+                variant: 0,
             }
         }
         Family::FutGroup | Family::StrGroup => {
             let n = if depth == 0 { VEC_LENS[c.choice(VEC_LENS.len())] } else { 1 + c.choice(3) };
             let container = if c.coin(100) { Container::KeyedGroup } else { Container::Group };
             let children = gen_children(c, p, fam, n, depth, nests_left);
-            CombSpec { family: fam, container, children }
+            CombSpec { family: fam, container, children, variant: 0 }
         }
         _ => {
             let container = c.weighted(&containers_for(fam));
@@ -274,7 +279,7 @@ pub fn gen_comb(c: &mut Cur, p: &Profile, fam: Family, depth: usize, nests_left:
                 n = 1;
             }
             let children = gen_children(c, p, fam, n, depth, nests_left);
-            CombSpec { family: fam, container, children }
+            CombSpec { family: fam, container, children, variant: 0 }
         }
     }
 }
@@ -324,6 +329,12 @@ pub fn gen_case(bytes: &[u8], p: &Profile) -> Case {
     let fam = c.weighted(&fams);
     let mut nests = 2usize;
     let mut root = gen_comb(&mut c, p, fam, 0, &mut nests);
+    // the type dimension (flat combinators only: every child a leaf)
+    let flat = root.children.iter().all(|ch| matches!(ch, ChildSpec::Leaf(_)));
+    if flat && matches!(root.family, Family::Join | Family::TryJoin | Family::Race | Family::RaceOk | Family::Merge | Family::Zip | Family::Chain) && c.coin(p.p_variant) {
+        let values_too = matches!(root.family, Family::Join | Family::TryJoin | Family::Zip);
+        root.variant = if values_too && c.coin(128) { 2 } else { 1 };
+    }
     let mut fair_polls = 0u32;
     if p.fair {
         // designate one input that has an item on every poll
